@@ -738,8 +738,13 @@ where
                     awaiting_linked.push(dl_writer);
                     true
                 } else if dl_writer.send(DownlinkNotification::Linked).await.is_ok() {
-                    trace!("Attaching a new subscriber to be synced.");
-                    awaiting_synced.push(dl_writer);
+                    if dl_writer.options.contains(DownlinkOptions::SYNC) {
+                        trace!("Attaching a new subscriber to be synced.");
+                        awaiting_synced.push(dl_writer);
+                    } else {
+                        trace!("Attaching a new subscriber that does not need to be synced.");
+                        registered.push(dl_writer);
+                    }
                     true
                 } else {
                     false
